@@ -100,6 +100,17 @@ class Source:
             end = match_close(self.text, self.mask, j) + 1
         return self._with_attrs(start), start, end
 
+    def find_type_alias(self, name):
+        rx = r"(?:pub(?:\([^)]*\))?\s+)?type\s+%s\b" % re.escape(name)
+        ms = find_code(self.text, self.mask, rx)
+        if len(ms) != 1:
+            raise Undecided("lost anchor: type %s found %d times in %s" % (name, len(ms), self.relpath))
+        start = ms[0].start()
+        j = ms[0].end()
+        while not (self.mask[j] and self.text[j] == ";"):
+            j += 1
+        return self._with_attrs(start), start, j + 1
+
     def find_const(self, name):
         rx = r"(?:pub(?:\([^)]*\))?\s+)?const\s+%s\s*:" % re.escape(name)
         ms = find_code(self.text, self.mask, rx)
@@ -276,11 +287,15 @@ class Extraction:
         self.records.append(rec)
         return rec
 
-    def extract_type(self, file, kw, name):
+    def extract_type(self, file, kw, name, drop_derive=False):
         s = self.src(file)
         a, st, end = s.find_type(kw, name)
         raw = s.text[a:end]
         rec = self.new_rec(file, "%s %s" % (kw, name), raw)
+        if drop_derive:
+            raw2, n = re.subn(r"(?m)^[ \t]*#\[derive\([^)]*\)\]\n", "", raw)
+            rec["dropped_attrs"].append("%d derive attribute(s) (drop_derive)" % n)
+            raw = raw2
         t = self.clean(raw, rec)
         if kw == "struct":
             t = self._pub_fields(t, rec)
@@ -296,6 +311,15 @@ class Extraction:
         if o < 0:
             return t
         return t[:o + 1] + _pub_fields_body(t[o + 1:], rec)
+
+    def extract_type_alias(self, file, name):
+        s = self.src(file)
+        a, st, end = s.find_type_alias(name)
+        raw = s.text[a:end]
+        rec = self.new_rec(file, "type %s" % name, raw)
+        t = self.clean(raw, rec)
+        rec["sha256_emitted"] = sha256_text(t)
+        return t
 
     def extract_const(self, file, name):
         s = self.src(file)
@@ -401,7 +425,9 @@ def generate(template_path, out_path, features=None):
             continue
         k, _, name = item.partition(":")
         if k in ("struct", "enum"):
-            out.append(ex.extract_type(file, k, name))
+            out.append(ex.extract_type(file, k, name, drop_derive=bool(args.get("drop_derive"))))
+        elif k == "type":
+            out.append(ex.extract_type_alias(file, name))
         elif k == "const":
             out.append(ex.extract_const(file, name))
         elif k == "fn":
